@@ -6,7 +6,9 @@
 (* (the hook takes a global sequence number under a mutex).  flag is the    *)
 (* publication state observed by the hook.  Events inside the critical      *)
 (* section are ordered exactly; the first, lock-free load may be logged     *)
-(* late, so for it only "saw an index => one was published" is required.    *)
+(* late, so for it only "saw an index => one was published" is required;    *)
+(* symmetrically a reader's successful load may be logged before the        *)
+(* builder's store event (EarlyLoad1).                                      *)
 (***************************************************************************)
 EXTENDS V2FLazyInit, Sequences, Json
 
@@ -23,8 +25,16 @@ StaleLoad1(g) == /\ pc[g] \in {"start", "done"} /\ pub
                  /\ pc' = [pc EXCEPT ![g] = "wantlock"]
                  /\ UNCHANGED <<pub, complete, lock, builds, got>>
 
+\* ... and it may be reported BEFORE the builder's own "v2f.store" event although it happened after
+\* the atomic store: the hook fires after the store, and the two goroutines race for the hook's
+\* sequence number.  Admissible only when a builder has finished filling (its build.end is logged).
+EarlyLoad1(g) == /\ pc[g] \in {"start", "done"} /\ \E b \in Readers : pc[b] = "filled"
+                 /\ pub' = TRUE /\ complete' = TRUE
+                 /\ pc' = [pc EXCEPT ![g] = "done"] /\ got' = [got EXCEPT ![g] = "full"]
+                 /\ UNCHANGED <<lock, builds>>
+
 Step(e) ==
-    \/ e.ev = "v2f.load1"       /\ (Load1(e.g, e.flag) \/ (~e.flag /\ StaleLoad1(e.g)))
+    \/ e.ev = "v2f.load1"       /\ (Load1(e.g, e.flag) \/ (~e.flag /\ StaleLoad1(e.g)) \/ (e.flag /\ ~pub /\ EarlyLoad1(e.g)))
     \/ e.ev = "v2f.locked"      /\ e.flag = pub /\ Lock(e.g)
     \/ e.ev = "v2f.load2"       /\ Load2(e.g, e.flag)
     \/ e.ev = "v2f.build.begin" /\ e.flag = FALSE /\ pub = FALSE /\ BuildBegin(e.g)
